@@ -554,6 +554,10 @@ func modCheck(c *codecCase, wire []byte, res *Result, kind string) {
 		}
 	}()
 	res.Steps++
+	if !c.Auto {
+		reuseCheck(c, wfrom, wire, res, kind, rep)
+		cloneCheck(c, wfrom, wire, res, kind, rep)
+	}
 	dec, _ := typeByName[from.Ty].New()
 	// as in the broker: the packet sits in a larger buffer, followed by other bytes
 	in := append(append([]byte(nil), wfrom...), 0xc0, 0x00)
@@ -688,6 +692,92 @@ func modCheck(c *codecCase, wire []byte, res *Result, kind string) {
 		if d := fieldsEqual(c, chk); d != "" {
 			fail(fmt.Sprintf("after %s, the encoded packet decodes to other fields: %s", how, d))
 		}
+	}
+}
+
+// reuseCheck: a message object that has been used before (it holds the decoded fields of another packet) is decoded
+// into again: what it holds afterwards are the fields of the second packet, all of them, and nothing of the first
+// (Codec!Mods pairs; C04: "every well-formed packet is accepted with the correct field values").
+func reuseCheck(c *codecCase, wfrom, wire []byte, res *Result, kind string, rep map[string]interface{}) {
+	fail := func(what string) {
+		res.mismatch(Mismatch{What: kind + " decoded into a message object that held another packet before: " + what, Tag: "C04", Replay: rep})
+	}
+	defer func() {
+		if r := recover(); r != nil {
+			fail(fmt.Sprintf("panic: %v", r))
+		}
+	}()
+	m, _ := typeByName[c.From.Ty].New()
+	if n, err := m.Decode(append([]byte(nil), wfrom...)); err != nil || n != len(wfrom) {
+		return // the reference decode is judged elsewhere
+	}
+	in := append([]byte(nil), wire...)
+	if n, err := m.Decode(in[:len(in):len(in)]); err != nil || n != len(wire) {
+		fail(fmt.Sprintf("well-formed packet refused or miscounted (n=%d err=%v)", n, err))
+		return
+	}
+	if d := fieldsEqual(c, m); d != "" {
+		fail("fields of the second packet: " + d)
+		return
+	}
+	if l := m.Len(); l != len(wire) {
+		fail(fmt.Sprintf("Len() = %d, the packet has %d bytes", l, len(wire)))
+		return
+	}
+	buf := make([]byte, len(wire))
+	if n, err := m.Encode(buf); err != nil || !bytes.Equal(buf[:n], wire) {
+		fail(fmt.Sprintf("re-encoding does not reproduce the second packet (n=%d err=%v)", n, err))
+	}
+}
+
+// cloneCheck: PublishMessage.Clone yields an independent message with equal fields: a second clone (of another
+// message), and changes to the original, leave the first clone's fields and encoding alone (C03).
+func cloneCheck(c *codecCase, wfrom, wire []byte, res *Result, kind string, rep map[string]interface{}) {
+	if c.From.Ty != "PUBLISH" {
+		return
+	}
+	fail := func(what string) {
+		res.mismatch(Mismatch{What: kind + " Clone: " + what, Tag: "C03", Replay: rep})
+	}
+	defer func() {
+		if r := recover(); r != nil {
+			fail(fmt.Sprintf("panic: %v", r))
+		}
+	}()
+	a := message.NewPublishMessage()
+	b := message.NewPublishMessage()
+	if _, err := a.Decode(append([]byte(nil), wfrom...)); err != nil {
+		return
+	}
+	if _, err := b.Decode(append([]byte(nil), wire...)); err != nil {
+		return
+	}
+	ca, err1 := a.Clone()
+	cb, err2 := b.Clone()
+	if err1 != nil || err2 != nil {
+		fail(fmt.Sprintf("Clone failed: %v %v", err1, err2))
+		return
+	}
+	// the original of the first clone is changed and re-used
+	a.SetTopic([]byte("zz"))
+	a.SetPayload([]byte("changed"))
+	for _, x := range []struct {
+		m    *message.PublishMessage
+		want []byte
+		name string
+	}{{ca, wfrom, "the first clone (after a second message was cloned and the original changed)"}, {cb, wire, "the second clone"}} {
+		if l := x.m.Len(); l != len(x.want) {
+			fail(fmt.Sprintf("%s: Len() = %d, the cloned message has %d bytes", x.name, l, len(x.want)))
+			return
+		}
+		buf := make([]byte, len(x.want))
+		if n, err := x.m.Encode(buf); err != nil || !bytes.Equal(buf[:n], x.want) {
+			fail(fmt.Sprintf("%s: Encode does not give the bytes of the cloned message (n=%d err=%v)", x.name, n, err))
+			return
+		}
+	}
+	if d := fieldsEqual(c, cb); d != "" {
+		fail("the second clone's fields: " + d)
 	}
 }
 
